@@ -4,6 +4,7 @@ import os
 import time
 
 VERIF = os.path.dirname(os.path.dirname(os.path.abspath(__file__)))
+EVIDENCE_DIR = None
 
 
 class Report:
@@ -93,14 +94,14 @@ def finish(rep, level, explanation, trusted_base, assumptions, checker_cmd=None,
             listed.append(v)
         else:
             unlisted.append(v)
-    os.makedirs(os.path.join(VERIF, 'evidence'), exist_ok=True)
-    os.makedirs(os.path.join(VERIF, 'evidence', 'replay'), exist_ok=True)
+    evdir = EVIDENCE_DIR or os.path.join(VERIF, 'evidence')
+    os.makedirs(os.path.join(evdir, 'replay'), exist_ok=True)
     for v in listed:
         out_lines.append('KNOWN-FINDING: property=%s %s -- %s%s' % (
             rep.pid, v['key'], v['msg'], (' @ ' + v['loc']) if v['loc'] else ''))
     replay_path = None
     if unlisted:
-        replay_path = os.path.join(VERIF, 'evidence', 'replay', '%s.json' % rep.pid)
+        replay_path = os.path.join(evdir, 'replay', '%s.json' % rep.pid)
         with open(replay_path, 'w') as f:
             json.dump({'property': rep.pid, 'tier': rep.tier, 'violations': unlisted}, f, indent=1)
         for v in unlisted:
@@ -148,7 +149,7 @@ def finish(rep, level, explanation, trusted_base, assumptions, checker_cmd=None,
         'wall_s': round(time.time() - rep.t0, 3),
         'violations': len(unlisted),
     }
-    evp = os.path.join(VERIF, 'evidence', '%s.json' % rep.pid)
+    evp = os.path.join(evdir, '%s.json' % rep.pid)
     tmp = evp + '.tmp.%d' % os.getpid()
     with open(tmp, 'w') as f:
         json.dump(ev, f, indent=1, default=str)
